@@ -577,6 +577,219 @@ def pcontains : P (RawMesh (V3 Float) × List (RawOp (V3 Float)) × List (V3 Flo
 def trisOf (s : Mesh (V3 Float) (V3 Float)) : List (V3 Rat × V3 Rat × V3 Rat) :=
   ((allCoords s.vertices s.indices).getD []).map fun c => (q3 c.1, q3 c.2.1, q3 c.2.2)
 
+/-! ## `histq3` / `histq2`: real queries on the final mesh of a history (oracle only, C20's panic / NaN clause)
+
+The harness replays the history of a `hist3` / `hist2` case and runs ray casts, point projections and ball queries on the
+final mesh (`harness/src/c11.rs`, `histq`).  The verdict: a panic in a query is a failure, a NaN / infinite float in a result
+is a failure, and every result must pass a cheap sanity test against the exact box `B` of the triangles' vertices and one
+vertex `W` of the mesh (both printed from the vertex / index buffers, not from the QBVH). -/
+namespace HQ
+
+inductive Item where
+  | ray (o d : List Float) (mx : Float) (t1 : Option Float) (t2 : Option (Float × List Float))
+  | proj (p pr : List Float)
+  | ball (c : List Float) (r pred : Float) (dist : Option Float) (it : Option Bool)
+         (con : Option (Option (Float × List Float × List Float × List Float × List Float)))
+
+/-- `u` (query unsupported) → none -/
+def punsup {α} (p : P α) : P (Option α) := do
+  let t ← peek
+  if t = "u" then do let _ ← tok; pure none else do let x ← p; pure (some x)
+
+def pitem (d : Nat) : P Item := do
+  let t ← tok
+  if t = "r" then do
+    let o ← rep pf d; let u ← rep pf d; let mx ← pf; let _ ← pbool
+    let t1 ← poptDash pfo
+    let t2 ← poptDash pfo
+    match t2 with
+    | none => do expect "-"; pure (.ray o u mx t1 none)
+    | some x => do let n ← rep pfo d; pure (.ray o u mx t1 (some (x, n)))
+  else if t = "p" then do
+    let p ← rep pf d; let pr ← rep pfo d; let _ ← pbool; pure (.proj p pr)
+  else if t = "b" then do
+    let c ← rep pf d; let r ← pf; let pred ← pf
+    let dist ← punsup pfo; let it ← punsup pbool
+    let k ← peek
+    if k = "u" then do let _ ← tok; pure (.ball c r pred dist it none)
+    else if k = "-" then do let _ ← tok; pure (.ball c r pred dist it (some none))
+    else do
+      expect "c"; let cd ← pfo; let p1 ← rep pfo d; let p2 ← rep pfo d; let n1 ← rep pfo d; let n2 ← rep pfo d
+      pure (.ball c r pred dist it (some (some (cd, p1, p2, n1, n2))))
+  else failure
+
+def pitems (d : Nat) : Nat → P (List Item)
+  | 0 => pure []
+  | fuel + 1 => fun s => match s with
+    | [] => some ([], [])
+    | _ => (do let x ← pitem d; let xs ← pitems d fuel; pure (x :: xs)) s
+
+structure Head where
+  dim : Nat
+  flags : Nat
+  ntri : Nat
+  lo : List Rat
+  hi : List Rat
+  /-- one vertex of the mesh (first corner of the first triangle) -/
+  w : List Rat
+  /-- some triangle has (nearly) zero area: `area² ≤ 1e-12 · (longest edge)⁴` -/
+  degenerate : Bool
+  /-- 3-D mesh with pseudo-normals (`ORIENTED` / `FIX_INTERNAL_EDGES`): solid for point queries -/
+  solid : Bool
+
+def fin (l : List Float) : Bool := l.all FloatIO.isFinite
+def qs (l : List Float) : List Rat := l.map q
+def maxAbs (l : List Rat) : Rat := l.foldl (fun m x => max m (rabs x)) 0
+def dist2 (a b : List Rat) : Rat := (a.zip b).foldl (fun s (x, y) => s + (x - y) * (x - y)) 0
+def norm2 (a : List Rat) : Rat := a.foldl (fun s x => s + x * x) 0
+def dotL (a b : List Rat) : Rat := (a.zip b).foldl (fun s (x, y) => s + x * y) 0
+def inBox (lo hi p : List Rat) (tol : Rat) : Bool :=
+  (lo.zip (hi.zip p)).all fun (l, h, x) => decide (l - tol ≤ x) && decide (x ≤ h + tol)
+/-- squared distance from `p` to the box -/
+def boxDist2 (lo hi p : List Rat) : Rat :=
+  (lo.zip (hi.zip p)).foldl (fun s (l, h, x) => let e := max (max (l - x) (x - h)) 0; s + e * e) 0
+def eps6 : Rat := 1 / 1000000
+
+/-- `4 · area²` of the triangle (Lagrange identity, any dimension) against its longest edge -/
+def triDegenerateGeo (a b c : List Rat) : Bool :=
+  let ab := (b.zip a).map fun (x, y) => x - y
+  let ac := (c.zip a).map fun (x, y) => x - y
+  let bc := (c.zip b).map fun (x, y) => x - y
+  let cr2 := norm2 ab * norm2 ac - dotL ab ac * dotL ab ac
+  let m := max (max (norm2 ab) (norm2 ac)) (norm2 bc)
+  decide (cr2 * 1000000000000 ≤ m * m)
+
+/-- header: the final buffers as printed by the harness; box, vertex and degeneracy are computed here -/
+def phead : P (Option Head) := do
+  expect "Q"; let d ← pnat; expect "F"; let f ← pnat
+  expect "V"; let nv ← pnat; let vs ← rep (rep pfo d) nv
+  expect "I"; let idx ← plist ptri
+  if !(vs.all fin) then pure none else
+  let V := vs.map qs
+  let corners : List (List Rat) := idx.flatMap fun t => [t.a, t.b, t.c].filterMap fun i => V[i]?
+  if corners.length != 3 * idx.length then failure else
+  let lo := (List.range d).map fun k => match corners with
+    | [] => (0 : Rat)
+    | x :: r => r.foldl (fun m p => min m (p.getD k 0)) (x.getD k 0)
+  let hi := (List.range d).map fun k => match corners with
+    | [] => (0 : Rat)
+    | x :: r => r.foldl (fun m p => max m (p.getD k 0)) (x.getD k 0)
+  let deg := idx.any fun t => match V[t.a]?, V[t.b]?, V[t.c]? with
+    | some a, some b, some c => triDegenerateGeo a b c
+    | _, _, _ => true
+  pure (some ⟨d, f, idx.length, lo, hi, corners.headD [], deg, d == 3 && (f / 8 % 2 == 1 || f / 128 % 2 == 1)⟩)
+
+inductive V where
+  | ok
+  | nan (why : String)
+  | bad (why : String)
+
+/-- `full = false` (a zero-area triangle is present, the geometric answers on it are not specified): only the NaN scan and
+the sign tests -/
+def judgeItem (h : Head) (full : Bool) : Item → V
+  | .ray o u mx t1 t2 =>
+    let lo := h.lo; let hi := h.hi; let O := qs o; let U := qs u
+    let chk (t : Float) (n : Option (List Rat)) : V :=
+      if !FloatIO.isFinite t then .nan "ray-toi" else
+      let T := q t
+      if T < 0 then .bad "ray-toi-negative" else
+      if T > q mx * (1 + eps6) then .bad "ray-toi-beyond-max" else
+      if !full then .ok else
+      -- a ray (nearly) parallel to the face it hits is rounding-sensitive (the exact ray lies in the plane): not judged
+      let grazing := match n with
+        | some N => decide (dotL N U * dotL N U ≤ (1 / 1000000000000000000) * norm2 U)
+        | none => false
+      if grazing then .ok else
+      let P := (O.zip U).map fun (a, b) => a + T * b
+      let tol := eps6 * (1 + maxAbs lo + maxAbs hi + maxAbs O + T * maxAbs U)
+      if inBox lo hi P tol then .ok else .bad "ray-hit-outside-mesh-aabb"
+    match t1, t2 with
+    | none, none => .ok
+    | some a, some (b, n) =>
+      if !fin n then .nan "ray-normal" else
+      match chk a (some (qs n)), chk b (some (qs n)) with
+      | .ok, .ok =>
+        if norm2 (qs n) > 1 + eps6 then .bad "ray-normal-longer-than-1" else
+        let tol := eps6 * (1 + rabs (q a) + rabs (q b))
+        if rabs (q a - q b) ≤ tol then .ok else .bad "cast_local_ray-and-cast_local_ray_and_get_normal-differ"
+      | .ok, e => e
+      | e, _ => e
+    | _, _ => .bad "cast_local_ray-and-cast_local_ray_and_get_normal-differ(hit/miss)"
+  | .proj p pr =>
+    if !fin pr then .nan "projection" else
+    if !full then .ok else
+    let lo := h.lo; let hi := h.hi; let Pt := qs p; let R := qs pr
+    let tol := eps6 * (1 + maxAbs lo + maxAbs hi + maxAbs Pt)
+    if !inBox lo hi R tol then .bad "projection-outside-mesh-aabb" else
+    -- the vertex `w` belongs to the mesh: the projection is not farther than it
+    if leTol (dist2 Pt R) (dist2 Pt h.w) eps6 then .ok else .bad "projection-farther-than-a-vertex"
+  | .ball c r pred dist it con =>
+    match dist, it, con with
+    | some dd, some itv, some k =>
+      if !FloatIO.isFinite dd then .nan "distance" else
+      let lo := h.lo; let hi := h.hi; let C := qs c; let D := q dd; let R := q r
+      let tol := eps6 * (1 + maxAbs lo + maxAbs hi + maxAbs C)
+      if D < 0 then .bad "distance-negative" else
+      let conFinite : Bool := match k with
+        | none => true
+        | some (cd, p1, p2, n1, n2) => FloatIO.isFinite cd && fin p1 && fin p2 && fin n1 && fin n2
+      if !conFinite then .nan "contact" else
+      if !full then .ok else
+      if (D + R + tol) * (D + R + tol) < boxDist2 lo hi C then .bad "distance-smaller-than-distance-to-aabb" else
+      if D > tol && (D - tol) * (D - tol) > dist2 C h.w then .bad "distance-larger-than-distance-to-a-vertex" else
+      -- an ORIENTED 3-D mesh is solid for the ball / point-query route of `intersection_test` only (known, C03 `o_it`)
+      if itv && D > tol && !h.solid then .bad "intersection_test-true-but-distance-positive" else
+      match k with
+      | none => if D + tol < q pred then .bad "contact-none-but-distance-below-prediction" else .ok
+      | some (cd, p1, p2, n1, n2) =>
+        let CD := q cd
+        if CD > q pred + tol then .bad "contact-dist-above-prediction" else
+        if D > tol && rabs (CD - D) > tol then .bad "contact-dist-differs-from-distance" else
+        if D ≤ tol && CD > 2 * tol then .bad "contact-dist-positive-but-distance-zero" else
+        if !inBox lo hi (qs p1) tol then .bad "contact-point1-outside-mesh-aabb" else
+        -- world-space witness on the ball
+        if rabs (dist2 (qs p2) C - R * R) > eps6 * (1 + maxAbs C) then .bad "contact-point2-not-on-the-ball" else
+        if rabs (norm2 (qs n1) - 1) > eps6 || rabs (norm2 (qs n2) - 1) > eps6 then .bad "contact-normal-not-unit" else .ok
+    | _, _, _ => .bad "query-unsupported"
+
+def kind : Item → String
+  | .ray .. => "ray"
+  | .proj .. => "proj"
+  | .ball .. => "ball"
+
+def oracle (o : List String) : String :=
+  match o with
+  | ["histpanic"] => "skip history-panicked(judged-by-hist)"
+  | ["empty"] => "skip empty-indices"
+  | "emptyfinal" :: _ => "skip empty-final-mesh(non-empty-meshes-only)"
+  | "panic" :: r =>
+    -- `panic <query> <msg> <header>`: the header tells whether the final mesh has a zero-area triangle
+    let tag := match phead (r.drop 2) with
+      | some (some h, _) => if h.degenerate then "[degenerate-triangle]" else ""
+      | _ => ""
+    "fail panic-in-query-after-history " ++ " ".intercalate (r.take 2) ++ tag
+  | _ =>
+    match phead o with
+    | none => "fail unparsable-output"
+    | some (none, _) => "skip non-finite-vertices"
+    | some (some h, rest) =>
+      if h.ntri = 0 then "skip empty-final-mesh(non-empty-meshes-only)" else
+      match run (do let xs ← pitems h.dim (rest.length + 1); pend; pure xs) rest with
+      | none => "fail unparsable-output"
+      | some items =>
+        let tag := if h.degenerate then "[degenerate-triangle]" else ""
+        let rec go : List Item → Nat → Option String
+          | [], _ => none
+          | it :: r, k => match judgeItem h (!h.degenerate) it with
+            | .ok => go r (k + 1)
+            | .nan w => some s!"fail nan-in-query-after-history item={k} {w}{tag}"
+            | .bad w => some s!"fail query-after-history item={k} {kind it} {w}{tag}"
+        match go items 0 with
+        | some e => e
+        | none => if items.isEmpty then "skip no-queries" else "pass"
+
+end HQ
+
 def handler (fn : String) : Option Handler :=
   match fn with
   | "hist3" => some {
@@ -627,6 +840,16 @@ def handler (fn : String) : Option Handler :=
       model := fun a => (run (pcase pv2) a).map fun (m, ops) => runHist (N := Unit) true false m ops
       oracle := fun a o => match run (pcase pv2) a with
         | some (m, ops) => oracleHist 2 false m ops o
+        | none => "skip bad-args" }
+  | "histq3" => some {
+      model := fun _ => some "oracle-only"
+      oracle := fun a o => match run (pcase pv3) a with
+        | some _ => HQ.oracle o
+        | none => "skip bad-args" }
+  | "histq2" => some {
+      model := fun _ => some "oracle-only"
+      oracle := fun a o => match run (pcase pv2) a with
+        | some _ => HQ.oracle o
         | none => "skip bad-args" }
   | _ => none
 
